@@ -29,7 +29,18 @@ def targets(eng):
     from contracts import conn
     from pyvc.engine import Engine
     e2 = Engine()
-    for t in conn.targets_for(e2, ["process_packet"], ["C13"]):
+    try:
+        conn_ts = conn.targets_for(e2, ["process_packet"], ["C13"])
+    except Exception as e:      # noqa: BLE001
+        # the registry is inconsistent to the point that the model of the connection cannot even be set up (e.g. api.proto names a
+        # message the compiled module does not have): the ground obligations above report that; this part is simply not decided
+        from pyvc.obl import Obligation
+        msg = f"{type(e).__name__}: {e}"[:200]
+        ts.append(ground_target("process_packet (not analysed)", lambda: [Obligation(
+            id="C13/connection.APIConnection.process_packet/supported", property="C13", kind="auxiliary", status="unsupported", backend="ground-eval",
+            goal="the connection model can be set up from api.proto and the compiled module", function="aioesphomeapi.connection.APIConnection.process_packet", detail=msg)]))
+        return ts
+    for t in conn_ts:
         def run(eng_, opts, name=t.name):
             e3 = Engine()
             tt = [x for x in conn.targets_for(e3, ["process_packet"], ["C13"]) if x.name == name][0]
